@@ -20,6 +20,7 @@ Deliverables, for each change, in the directory %(wt)s/SEEDED/<property id>-<a|b
 Before finishing, verify for each patch from a clean tree (`git checkout -- .`): patch applies with `git apply`, demo.py exits 1 with it and 0 without it, test suite unchanged. Never use `git stash` (the stash is shared between worktrees of other people): use `git diff > file`, `git checkout -- .` and `git apply` instead. Leave the worktree clean (no applied patch) at the end, with only the SEEDED/ directory added (untracked). Final answer: a short list of the changes (property, summary, needs) and anything you could not do.
 """ % {"wt": wt, "n": "TWO different changes" })
 import glob, os
+NAMES = os.environ.get("SEED_NAMES", "e,f").split(",")
 for i in ids:
     p = props[i]
     prev = []
@@ -29,7 +30,7 @@ for i in ids:
         except Exception:
             pass
     if prev and os.environ.get("SEED_ROUND2"):
-        out.append("For %s the following changes have ALREADY been made by someone else - yours must use different mechanisms, in different functions, and need different circumstances to manifest (name your directories %s-e and %s-f):\n%s\n" % (i, i, i, "\n".join("  - " + x for x in prev)))
+        out.append("For %s the following changes have ALREADY been made by someone else - yours must use different mechanisms, in different functions, and need different circumstances to manifest (name your directories %s-%s and %s-%s):\n%s\n" % (i, i, NAMES[0], i, NAMES[1], "\n".join("  - " + x for x in prev)))
     out.append("PROPERTY %s - %s\nStatement: %s\nQuantified over: %s\nWhy the existing tests cannot settle it: %s\nCode it is anchored in: %s\n" % (
         i, p["title"], p["statement"], p["quantifier"]["text"], p["why_tests_cant"], ", ".join(p["anchors"]["files"])))
 print("\n".join(out))
